@@ -4,14 +4,18 @@
  * (seed chain + exact byte stream) and where/how the result is stored, not the
  * arithmetic of the CRC (that is harness crc32c_d / crc16_d).
  *
- * Every call appends its bytes (copied AT CALL TIME, so a temporarily zeroed
- * checksum field is seen as the code presents it) to one stream, records its
- * incoming crc, and returns a fresh symbolic token IN.tok[k].  Because the
+ * Every call compares its bytes AT CALL TIME (so a temporarily zeroed checksum
+ * field is seen as the code presents it) with the next bytes of the expected
+ * stream TL_EXPECT[] that the harness computed beforehand from the format
+ * description, records its incoming crc, and returns a fresh symbolic token
+ * IN.tok[k].  (Comparing instead of copying keeps ~1000 array updates per call
+ * out of the formula; the check is the same.)  Because the
  * tokens are arbitrary, "call k+1 continues from the result of call k" can only
  * hold for every token if the code really chains the calls.
  *
- * Needs before inclusion: TL_MAXCALLS, TL_MAXBYTES, and the global input
- * struct IN with a member  __u32 tok[TL_MAXCALLS].
+ * Needs before inclusion: TL_MAXCALLS, TL_MAXBYTES, TL_EXPECT (array of
+ * TL_MAXBYTES expected stream bytes) and the global input struct IN with a
+ * member  __u32 tok[TL_MAXCALLS].
  */
 #ifndef TL_MAXCALLS
 #error "define TL_MAXCALLS"
@@ -21,17 +25,15 @@ static unsigned int tl_ncalls;			/* calls so far */
 static __u32 tl_crc_in[TL_MAXCALLS];		/* incoming crc of call k */
 static unsigned int tl_kind[TL_MAXCALLS];	/* 32 = crc32c, 16 = crc16, 33 = crc32_be */
 static unsigned int tl_nbytes;			/* stream length so far */
-static unsigned char tl_bytes[TL_MAXBYTES];	/* the concatenated stream */
+static int tl_mismatch;				/* some byte fed differs from TL_EXPECT at its stream position */
 static int tl_overflow;
 
 static void stub_tl_reset(void)
 {
-	unsigned int i;
 	tl_ncalls = 0;
 	tl_nbytes = 0;
 	tl_overflow = 0;
-	for (i = 0; i < TL_MAXBYTES; i++)
-		tl_bytes[i] = 0xA5;
+	tl_mismatch = 0;
 }
 
 static __u32 stub_tl_call(unsigned int kind, __u32 crc, const unsigned char *p, unsigned long len)
@@ -51,7 +53,8 @@ static __u32 stub_tl_call(unsigned int kind, __u32 crc, const unsigned char *p, 
 			tok = IN.tok[i];
 		}
 	for (i = 0; i < len; i++)
-		tl_bytes[tl_nbytes + i] = p[i];
+		if (p[i] != TL_EXPECT[tl_nbytes + i])
+			tl_mismatch = 1;
 	tl_nbytes += len;
 	return tok;
 }
